@@ -410,6 +410,8 @@ def main():
                 for nm in names:
                     r, w = run_replay(binp, ["search", nm, "thorough", str(seed)], timeout=1800)
                     r["wall_s"] = round(w, 2)
+                    if isinstance(r.get("first_failure"), dict):
+                        r["first_failure"]["seed"] = seed
                     if search_res is None or (r.get("failures", 0) > 0 and not search_res.get("failures", 0)):
                         prev = search_res
                         search_res = r
